@@ -14,6 +14,25 @@ A small render model for C27: `with` blocks (`liquid/extra/tags/_with.py`), `mac
   `BoundTemplate.render_with_context` pushes — and 4 in a macro body, whose context is a fresh copy)
   and pops the namespace on exit (the pushed list is an argument here, not part of the returned state).
 * `assign` writes to `locals` — *behind* the pushed namespaces.
+* **Interrupts.** `break` / `continue` raise `BreakLoop` / `ContinueLoop`, a failing node raises a
+  `LiquidError`; all three propagate as Python exceptions through blocks, `with` blocks and macro calls
+  until a `for` catches the interrupt or `BoundTemplate.render_with_context` handles it (an interrupt
+  outside a loop becomes `LiquidSyntaxError`; in lax mode the top-level node is abandoned and rendering
+  goes on with the next one; what was written to the buffer stays).  The pushed namespaces are therefore
+  part of the *state* here: `with` and `for` push explicitly and pop on **every** exit (the
+  `try … finally: self.scope.pop()` of `RenderContext.extend`), and `with_scoped_on_every_exit` proves the
+  stack is balanced whatever the signal.
+* `{% include 'p' %}` renders the partial **in the same context**: `context.extend({})` in the tag and once
+  more in `render_with_context(partial=True)` (two pushes, each with its depth check, both popped on every
+  exit); locals, macros (`tag_namespace["macros"]`) are shared in both directions; interrupts pass through to
+  an enclosing loop of the parent.  `{% render 'p', k: v %}` renders the partial in `context.copy(args)`:
+  fresh locals, **fresh macros**, arguments in front of the caller's globals; the caller's state is
+  untouched; an interrupt that reaches the partial's top level is a `LiquidSyntaxError`
+  (`block_scope=True`).  Both are modelled for strict mode (in lax mode the partial's own top-level loop goes
+  on after an error, which is not modelled; generators use them in strict mode only).  The harness inlines
+  the partial's nodes.
+* `for v in (1..n)`: `context.loop(namespace)` = `extend` (depth check, push `{forloop, v: None}`), then for
+  each item `namespace[v] = item`, render the block, `ContinueLoop` → next item, `BreakLoop` → leave.
 * `MacroNode` stores `(params, block)` under its name in `tag_namespace["macros"]`.
 * `CallNode`: unknown macro → `str(Undefined)` = "" ; otherwise `macro_args`, then the namespace
   `{"args": [...], "kwargs": {...}}` updated with every parameter (a parameter called `args` therefore
@@ -27,6 +46,7 @@ open LiquidVerif.MacroArgs
 
 inductive Val where
   | str (s : String)
+  | int (i : Nat)            -- an item of a `(1..n)` range
   | undef
   deriving Repr, DecidableEq
 
@@ -48,18 +68,37 @@ inductive Node where
   | call (name : Name) (pos : List Expr) (kw : List (Name × Expr))
   | dumpList (n : Name)            -- `{% for x in n %}<{{ x }}>{% endfor %}`
   | dumpDict (n : Name)            -- `{% for x in n %}<{{ x[0] }}={{ x[1] }}>{% endfor %}`
+  | forRange (v : Name) (n : Nat) (body : List Node)   -- `{% for v in (1..n) %}…{% endfor %}`
+  | ifEq (v : Name) (k : Nat) (body : List Node)       -- `{% if v == k %}…{% endif %}`
+  | brk                                                -- `{% break %}`
+  | cont                                               -- `{% continue %}`
+  | fail                                               -- `{{ 1 | divided_by: 0 }}`: raises a LiquidError
+  | included (body : List Node)     -- `{% include 'p' %}`, `body` = the nodes of template `p` (strict mode)
+  | isolated (args : List (Name × Expr)) (body : List Node)   -- `{% render 'p', k: v, … %}` (strict mode)
 
 structure Macro where
   params : List (Name × Option Expr)     -- `macro.args`, already a dict
   body : List Node
 
-/-- the part of the context a node can change -/
+/-- the part of the context a node can change; `pushed` = the namespaces in front of the scope chain,
+innermost first -/
 structure State where
+  pushed : List NS
   locals : NS
   macros : List (Name × Macro)
 
 inductive Err where
-  | contextDepth
+  | contextDepth           -- ContextDepthError
+  | failed                 -- the error of a `fail` node (FilterArgumentError)
+  | strayInterrupt         -- LiquidSyntaxError: break / continue outside a loop
+  deriving Repr, DecidableEq
+
+/-- how a node was left -/
+inductive Sig where
+  | normal
+  | brk
+  | cont
+  | error (e : Err)
   deriving Repr, DecidableEq
 
 /-- `ReadOnlyChainMap.__getitem__` over pushed namespaces, locals, the globals chain -/
@@ -81,6 +120,7 @@ def eval (pushed : List NS) (locals : NS) (globals : List NS) : Expr → Obj
 
 def valStr : Val → String
   | .str s => s
+  | .int i => toString i
   | .undef => ""
 
 /-- `to_liquid_string` for the values that occur (a list is joined; `kwargs` is never printed whole) -/
@@ -97,6 +137,7 @@ def asVal : Obj → Val
 def dumpListStr : Obj → String
   | .list xs => String.join (xs.map fun v => "<" ++ valStr v ++ ">")
   | .val (.str s) => "<" ++ s ++ ">"       -- a string is a one-item sequence
+  | .val (.int i) => "<" ++ toString i ++ ">"
   | .val .undef => ""
   | .dict kvs => String.join (kvs.map fun _ => "<?>")
 
@@ -123,58 +164,137 @@ def callNamespace (pushed : List NS) (locals : NS) (globals : List NS) (b : Boun
      ("kwargs", .dict (b.excessKwargs.map fun p => (p.1, asVal (ev p.2))))]
   b.args.foldl (fun ns p => dictSet ns p.1 (paramVal pushed locals globals p.2)) base
 
+/-- `self.scope.pop()` -/
+def State.pop (st : State) : State := { st with pushed := st.pushed.tail }
+/-- `self.scope.push(ns)` -/
+def State.push (st : State) (ns : NS) : State := { st with pushed := ns :: st.pushed }
+
 mutual
-/-- `limit` = `context_depth_limit`, `depth` = `_copy_depth`, `base` = maps in the scope chain besides the pushed ones -/
-def render (limit depth base : Nat) (pushed : List NS) (globals : List NS) (st : State) :
-    Node → Except Err (State × String)
-  | .text s => .ok (st, s)
-  | .out e => .ok (st, objStr (eval pushed st.locals globals e))
-  | .assign n e => .ok ({ st with locals := dictSet st.locals n (eval pushed st.locals globals e) }, "")
-  | .dumpList n => .ok (st, dumpListStr (resolve pushed st.locals globals n))
-  | .dumpDict n => .ok (st, dumpDictStr (resolve pushed st.locals globals n))
+/-- `limit` = `context_depth_limit`, `depth` = `_copy_depth`, `base` = maps in the scope chain besides the
+pushed ones.  Returns the state, the text written so far and how the node was left. -/
+def render (limit depth base : Nat) (globals : List NS) (st : State) : Node → State × String × Sig
+  | .text s => (st, s, .normal)
+  | .out e => (st, objStr (eval st.pushed st.locals globals e), .normal)
+  | .assign n e => ({ st with locals := dictSet st.locals n (eval st.pushed st.locals globals e) }, "", .normal)
+  | .dumpList n => (st, dumpListStr (resolve st.pushed st.locals globals n), .normal)
+  | .dumpDict n => (st, dumpDictStr (resolve st.pushed st.locals globals n), .normal)
+  | .brk => (st, "", .brk)
+  | .cont => (st, "", .cont)
+  | .fail => (st, "", .error .failed)
   | .withB args body =>
-    let ns := evalArgs pushed st.locals globals args
-    if base + pushed.length > limit then .error .contextDepth
-    else renderList limit depth base (ns :: pushed) globals st body
+    let ns := evalArgs st.pushed st.locals globals args
+    if base + st.pushed.length > limit then (st, "", .error .contextDepth)
+    else
+      let r := renderList limit depth base globals (st.push ns) body
+      -- `finally: self.scope.pop()`: on every exit
+      (r.1.pop, r.2.1, r.2.2)
+  | .ifEq v k body =>
+    if resolve st.pushed st.locals globals v = .val (.int k) then renderList limit depth base globals st body
+    else (st, "", .normal)
+  | .forRange v n body =>
+    if n = 0 then (st, "", .normal)
+    else if base + st.pushed.length > limit then (st, "", .error .contextDepth)
+    else
+      let r := renderLoop limit depth base globals (st.push [(v, .val .undef)]) v 1 n body
+      (r.1.pop, r.2.1, r.2.2)
+  | .included body =>
+    if base + st.pushed.length > limit then (st, "", .error .contextDepth)                -- extend in the tag
+    else if base + (st.pushed.length + 1) > limit then (st, "", .error .contextDepth)     -- extend in render_with_context
+    else
+      let r := renderList limit depth base globals ((st.push []).push []) body
+      (r.1.pop.pop, r.2.1, r.2.2)
+  | .isolated args body =>
+    let ns := evalArgs st.pushed st.locals globals args
+    if depth > limit then (st, "", .error .contextDepth)
+    else
+      let r := renderList limit (depth + 1) 5 (ns :: globals) { pushed := [], locals := [], macros := [] } body
+      (st, r.2.1, match r.2.2 with
+        | .brk => .error .strayInterrupt
+        | .cont => .error .strayInterrupt
+        | s => s)
   | .macroDef name params body =>
-    .ok ({ st with macros := dictSet st.macros name { params := parseParams params, body := body } }, "")
+    ({ st with macros := dictSet st.macros name { params := parseParams params, body := body } }, "", .normal)
   | .call name pos kw =>
     match dictGet st.macros name with
-    | none => .ok (st, "")
+    | none => (st, "", .normal)
     | some m =>
-      let ns := callNamespace pushed st.locals globals (macroArgs m.params pos kw)
-      if depth > limit then .error .contextDepth
+      let ns := callNamespace st.pushed st.locals globals (macroArgs m.params pos kw)
+      if depth > limit then (st, "", .error .contextDepth)
       else
-        match renderList limit (depth + 1) 4 [] (ns :: globals) { locals := [], macros := [] } m.body with
-        | .error e => .error e
-        | .ok (_, o) => .ok (st, o)
-termination_by n => (limit + 1 - depth, sizeOf n)
+        -- a fresh context; interrupts and errors of the body propagate to the caller
+        let r := renderList limit (depth + 1) 4 (ns :: globals) { pushed := [], locals := [], macros := [] } m.body
+        (st, r.2.1, r.2.2)
+termination_by n => (limit + 1 - depth, sizeOf n, 0)
 decreasing_by
   all_goals simp_wf
-  · apply Prod.Lex.right; omega
-  · apply Prod.Lex.left; omega
+  all_goals first
+    | (apply Prod.Lex.left; omega)
+    | (apply Prod.Lex.right; apply Prod.Lex.left; omega)
 
-def renderList (limit depth base : Nat) (pushed : List NS) (globals : List NS) (st : State) :
-    List Node → Except Err (State × String)
-  | [] => .ok (st, "")
+def renderList (limit depth base : Nat) (globals : List NS) (st : State) : List Node → State × String × Sig
+  | [] => (st, "", .normal)
   | n :: ns =>
-    match render limit depth base pushed globals st n with
-    | .error e => .error e
-    | .ok (st1, o1) =>
-      match renderList limit depth base pushed globals st1 ns with
-      | .error e => .error e
-      | .ok (st2, o2) => .ok (st2, o1 ++ o2)
-termination_by ns => (limit + 1 - depth, sizeOf ns)
+    let r := render limit depth base globals st n
+    match r.2.2 with
+    | .normal =>
+      let r2 := renderList limit depth base globals r.1 ns
+      (r2.1, r.2.1 ++ r2.2.1, r2.2.2)
+    | s => (r.1, r.2.1, s)     -- the exception leaves the block
+termination_by ns => (limit + 1 - depth, sizeOf ns, 0)
 decreasing_by
   all_goals simp_wf
-  · apply Prod.Lex.right; omega
-  · apply Prod.Lex.right; omega
+  all_goals first
+    | (apply Prod.Lex.left; omega)
+    | (apply Prod.Lex.right; apply Prod.Lex.left; omega)
+
+/-- the iterations `i, i+1, …` (`rem` of them) of a `for` block; the loop's namespace is on top of `pushed` -/
+def renderLoop (limit depth base : Nat) (globals : List NS) (st : State) (v : Name) (i rem : Nat)
+    (body : List Node) : State × String × Sig :=
+  match rem with
+  | 0 => (st, "", .normal)
+  | rem' + 1 =>
+    -- `namespace[name] = itm`
+    let st1 : State := { st with pushed := [(v, .val (.int i))] :: st.pushed.tail }
+    let r := renderList limit depth base globals st1 body
+    match r.2.2 with
+    | .brk => (r.1, r.2.1, .normal)
+    | .error e => (r.1, r.2.1, .error e)
+    | _ =>      -- normal end of the block, or `continue`
+      let r2 := renderLoop limit depth base globals r.1 v (i + 1) rem' body
+      (r2.1, r.2.1 ++ r2.2.1, r2.2.2)
+termination_by (limit + 1 - depth, sizeOf body + 1, rem)
+decreasing_by
+  all_goals simp_wf
+  all_goals first
+    | (apply Prod.Lex.left; omega)
+    | (apply Prod.Lex.right; apply Prod.Lex.left; omega)
+    | (apply Prod.Lex.right; apply Prod.Lex.right; omega)
 end
 
+inductive Mode where
+  | strict | lax
+  deriving Repr, DecidableEq
+
+/-- `BoundTemplate.render_with_context` over the top-level nodes: an interrupt that reaches the top is a
+`LiquidSyntaxError`; `env.error` raises in strict mode and goes on with the next node in lax / warn mode. -/
+def renderTop (limit : Nat) (mode : Mode) (globals : List NS) (st : State) : List Node → Except Err String
+  | [] => .ok ""
+  | n :: ns =>
+    let r := render limit 0 5 globals st n
+    let err? : Option Err := match r.2.2 with
+      | .normal => none
+      | .brk => some .strayInterrupt
+      | .cont => some .strayInterrupt
+      | .error e => some e
+    match err?, mode with
+    | some e, .strict => .error e
+    | _, _ =>
+      match renderTop limit mode globals r.1 ns with
+      | .ok o => .ok (r.2.1 ++ o)
+      | .error e => .error e
+
 /-- a whole template: empty locals, no macros, depth 0 -/
-def renderTemplate (limit : Nat) (globals : NS) (nodes : List Node) : Except Err String :=
-  match renderList limit 0 5 [] [globals] { locals := [], macros := [] } nodes with
-  | .ok (_, o) => .ok o
-  | .error e => .error e
+def renderTemplate (limit : Nat) (mode : Mode) (globals : NS) (nodes : List Node) : Except Err String :=
+  renderTop limit mode [globals] { pushed := [], locals := [], macros := [] } nodes
 
 end LiquidVerif.MacroRender
